@@ -165,8 +165,12 @@ func indexProvenanceSSA(w *World, fn *ssa.Function, v ssa.Value, depth int) bool
 				x = sv
 			}
 		}
-		_, isP := x.(*ssa.Parameter)
-		return isP
+		if _, isP := x.(*ssa.Parameter); isP {
+			return true
+		}
+		// the evaluated index kept in a struct that is handed over by value (x indexed; x.index)
+		_, _, isField := structFieldOfParam(x)
+		return isField
 	}
 	switch x := v.(type) {
 	case *ssa.TypeAssert:
@@ -219,6 +223,27 @@ func indexProvenanceSSA(w *World, fn *ssa.Function, v ssa.Value, depth int) bool
 				}
 				if _, isP := a.(*ssa.Parameter); isP && types.IsInterface(g.Params[i].Type()) {
 					okArg = true
+				}
+				// the struct that holds the operands, handed on whole
+				if ld, isLd := a.(*ssa.UnOp); isLd && ld.Op == token.MUL {
+					if al, isAl := ld.X.(*ssa.Alloc); isAl {
+						var stored ssa.Value
+						ns := 0
+						for _, ref := range *al.Referrers() {
+							if st, isSt := ref.(*ssa.Store); isSt && st.Addr == ssa.Value(al) {
+								stored = st.Val
+								ns++
+							}
+						}
+						if ns == 1 {
+							a = stored
+						}
+					}
+				}
+				if _, isP := a.(*ssa.Parameter); isP {
+					if _, isStruct := g.Params[i].Type().Underlying().(*types.Struct); isStruct {
+						okArg = true
+					}
 				}
 			}
 			if !okArg {
@@ -374,8 +399,11 @@ func keyProvenanceSSA(w *World, fn *ssa.Function, v ssa.Value, depth int) bool {
 			}
 			break
 		}
-		_, isP := a.(*ssa.Parameter)
-		return isP
+		if _, isP := a.(*ssa.Parameter); isP {
+			return true
+		}
+		_, _, isField := structFieldOfParam(a)
+		return isField
 	}
 	switch x := v.(type) {
 	case *ssa.Phi:
